@@ -329,6 +329,9 @@ def scenarios(tier: str):
                         if tier != 'quick' and trig is None:
                             out.append({'n': n, 'direct': direct, 'indirect': indirect, 'action': action,
                                         'trigger': trig, 'net_dev': True})
+    if tier != 'quick':
+        out.append({'n': 1, 'direct': 'fast', 'indirect': 'silence', 'action': 'abort', 'trigger': None, 'deep': True})
+        out.append({'n': 1, 'direct': 'hang', 'indirect': 'pierce', 'action': 'pause', 'trigger': None, 'deep': True})
     # uploads: the downloader queued a file, the library negotiates (reachable / hanging / refusing downloader)
     for direct in ('fast', 'hang', 'refuse'):
         for indirect in (('silence',) if tier == 'quick' else ('silence', 'pierce')):
@@ -346,8 +349,11 @@ def weight(params, tier):
 
 
 def run_scenario(params: dict, tier: str) -> dict:
-    bound = 1 if tier == 'quick' else 2
-    res = explore(lambda ch: run_one(params, ch), bound=bound, max_exec=4000 if tier == 'quick' else 40000)
+    # one execution is ~40 ms and a scenario has ~800 placements at bound 1: bound 2 (~3 * 10^5 executions per
+    # scenario) is only run, capped, on the scenarios marked 'deep' in the thorough tier; everything else completes
+    # bound 1 on every scenario shape (thorough adds all shapes and the network deviations)
+    bound = 2 if (tier != 'quick' and params.get('deep')) else 1
+    res = explore(lambda ch: run_one(params, ch), bound=bound, max_exec=4000 if tier == 'quick' else 60000)
     return {'executions': res.executions, 'violations': res.violations, 'states': res.states,
             'transitions': res.transitions, 'outcomes': list(res.outcomes), 'capped': res.capped,
             'bound': res.bound_completed, 'samples': res.samples}
